@@ -1,5 +1,6 @@
 import MpfVerif.Lemmas.DriverTimers
 import MpfVerif.Gen.HwDriverCallSites
+import MpfVerif.Lemmas.DriverGen
 /-!
 # C08 — coils are never driven beyond their configured safety limits
 
@@ -310,6 +311,100 @@ example :
                     fun k => if k = "max_pulse" then .int 255 else .int 10⟩
     (runOps c {} [.pulse (.int 300) .none, .advance 125, .pulse (.int 300) .none, .advance 400]).map (fun tc => tc.1)
       = [0, 125, 425] := by decide
+
+/-! ## The hand model does exactly what the source does
+
+`Gen/DriverOps.lean` holds `Driver.pulse / enable / timed_enable / disable / _pulse_now / _enable_now /
+_enable_limit_reached / _notify_psu_and_get_wait_ms / event_*` as translated from `mpf/devices/driver.py` on this run.
+The theorems below tie `Model/Driver.lean` (about which everything above is proved) to that text. -/
+
+/-- what configuration validation and the platform guarantee about the two values the timers are computed from -/
+def ConfigSane (c : Ctx) : Prop :=
+  (c.env "max_pulse").num.isSome = true ∧ NumOrNone (c.cfg "max_hold_duration")
+
+theorem vPulseMs_int (c : Ctx) : ∀ x v, vPulseMs c x = .ok v → v.isInt = true :=
+  fun _ _ h => (call_of_triple _ _ (pulse_ms_sound c) h).1
+
+theorem vTimedMs_int (c : Ctx) : ∀ x v, vTimedMs c x = .ok v → v.isInt = true :=
+  fun _ _ h => (call_of_triple _ _ (timed_enable_ms_sound c) h).1
+
+/-- the translated method and the keyword arguments a request of the model stands for (`max_wait_ms` not given) -/
+def srcOf : Op → Option (List ESt × List (String × PyVal))
+  | .pulse ms pw => some (Gen.DriverOps.pulse, [("pulse_ms", ms), ("pulse_power", pw)])
+  | .enable ms pw hp => some (Gen.DriverOps.enable, [("pulse_ms", ms), ("pulse_power", pw), ("hold_power", hp)])
+  | .timedEnable te hp ms pw => some (Gen.DriverOps.timed_enable,
+      [("timed_enable_ms", te), ("hold_power", hp), ("pulse_ms", ms), ("pulse_power", pw)])
+  | .disable => some (Gen.DriverOps.disable, [])
+  | .advance _ => none
+
+/-- **C08, tie to the source**: for every configuration, every state of the two software timers, every request and
+every argument value (None, bool, int, float, NaN, str), and whatever the PSU and the other collaborators answer,
+running the *translated source* of the request and folding its calls on the platform driver and the delay manager over
+the state gives exactly what the hand model computes: the same accept/refuse verdict, the same platform commands in the
+same order with the same powers and durations, the same `timed_disable` and `enable_limit_reached` deadlines. -/
+theorem requests_refine_source (c : Ctx) (ora : Oracle) (s : Driver.St) (op : Op) (prog : List ESt)
+    (args : List (String × PyVal)) (hc : ConfigSane c) (hop : srcOf op = some (prog, args)) :
+    hand s (doOp c s op) = gen s (callE c ora prog args) := by
+  cases op with
+  | pulse ms pw =>
+    simp only [srcOf, Option.some.injEq, Prod.mk.injEq] at hop; obtain ⟨rfl, rfl⟩ := hop
+    exact pulse_refines c ora s ms pw hc.1 (vPulseMs_int c) (vTimedMs_int c)
+  | enable ms pw hp =>
+    simp only [srcOf, Option.some.injEq, Prod.mk.injEq] at hop; obtain ⟨rfl, rfl⟩ := hop
+    exact enable_refines c ora s ms pw hp hc.2
+  | timedEnable te hp ms pw =>
+    simp only [srcOf, Option.some.injEq, Prod.mk.injEq] at hop; obtain ⟨rfl, rfl⟩ := hop
+    exact timed_enable_refines c ora s te hp ms pw (vPulseMs_int c) (vTimedMs_int c)
+  | disable =>
+    simp only [srcOf, Option.some.injEq, Prod.mk.injEq] at hop; obtain ⟨rfl, rfl⟩ := hop
+    exact disable_refines c ora s
+  | advance dt => simp [srcOf] at hop
+
+/-- **a refused request does nothing** (in the source): when the translated `pulse / enable / timed_enable` raises
+(limit exceeded, negative or ill-typed value, hold power 0), none of the calls it made before raising touched the
+platform driver or the two timers — nothing was clamped or passed through. -/
+theorem refused_request_has_no_effect_in_source (c : Ctx) (ora : Oracle) (s : Driver.St) (op : Op) (prog : List ESt)
+    (args : List (String × PyVal)) (hc : ConfigSane c) (hop : srcOf op = some (prog, args)) (e : Err)
+    (hr : (callE c ora prog args).2 = .error e) :
+    (callE c ora prog args).1.foldl (applyEff s.now) ⟨s.timedDisable, s.limitDue, [], false⟩ = ⟨s.timedDisable, s.limitDue, [], false⟩ := by
+  have h := requests_refine_source c ora s op prog args hc hop
+  unfold gen at h
+  rw [hr] at h
+  cases hd : doOp c s op with
+  | error x => rw [hd] at h; simp only [hand, Prod.mk.injEq] at h; exact h.2.symm
+  | ok r => rw [hd] at h; simp [hand] at h
+
+/-- **control events** (`event_pulse / event_enable / event_timed_enable / event_disable`, which carry arbitrary
+parameters from configs and shows) do what the methods do: same commands, same timers, same verdict. -/
+theorem control_events_refine_source (c : Ctx) (ora : Oracle) (s : Driver.St) (a b h t m : PyVal) :
+    gen s (callE c ora Gen.DriverOps.event_pulse [("pulse_ms", a), ("pulse_power", b), ("max_wait_ms", m)]) =
+      gen s (callE c ora Gen.DriverOps.pulse [("pulse_ms", a), ("pulse_power", b), ("max_wait_ms", m)]) ∧
+    gen s (callE c ora Gen.DriverOps.event_enable [("pulse_ms", a), ("pulse_power", b), ("hold_power", h)]) =
+      gen s (callE c ora Gen.DriverOps.enable [("pulse_ms", a), ("pulse_power", b), ("hold_power", h)]) ∧
+    gen s (callE c ora Gen.DriverOps.event_timed_enable
+        [("timed_enable_ms", t), ("hold_power", h), ("pulse_ms", a), ("pulse_power", b), ("max_wait_ms", m)]) =
+      gen s (callE c ora Gen.DriverOps.timed_enable
+        [("timed_enable_ms", t), ("hold_power", h), ("pulse_ms", a), ("pulse_power", b), ("max_wait_ms", m)]) ∧
+    gen s (callE c ora Gen.DriverOps.event_disable []) = gen s (callE c ora Gen.DriverOps.disable []) :=
+  ⟨event_pulse_is_pulse c ora s a b m, event_enable_is_enable c ora s a b h,
+   event_timed_enable_is_timed_enable c ora s t h a b m, event_disable_is_disable c ora s⟩
+
+/-- **the hold-limit callback** `_enable_limit_reached` (and the `timed_disable` callback, which is `disable` itself)
+switches the coil off and leaves no limit timer behind, as `fireDue` of the model does. -/
+theorem limit_callback_refines_source (c : Ctx) (ora : Oracle) (s : Driver.St) :
+    hand s (.ok (doDisable s)) = gen s (callE c ora Gen.DriverOps.p_enable_limit_reached []) :=
+  limit_reached_refines c ora s
+
+/-- non-vacuity: a sane configuration exists, and on it the translated `pulse(300)` on a platform whose hardware pulses
+stop at 255 ms arms the 300 ms software timer and sends the software-timed enable — computed by running the translated
+source, not the hand model -/
+example :
+    let c : Ctx := ⟨fun k => if k = "max_pulse_power" then .flt 1000000 else .none,
+                    fun k => if k = "max_pulse" then .int 255 else .int 10⟩
+    ConfigSane c ∧
+    (gen {} (callE c (fun _ => .none) Gen.DriverOps.pulse [("pulse_ms", .int 300)])) =
+      (true, ⟨some 300, none, [.enable (.flt 1000000) (.int 0) (.flt 1000000) false], false⟩) := by
+  refine ⟨⟨by decide, Or.inl (by decide)⟩, by decide⟩
 
 /-- **entry-point closure** (regenerated from the whole source tree on every run): the only places under `mpf/`
 (outside the platform packages) that actuate a platform driver directly are the three `Driver` paths modelled above
